@@ -266,6 +266,7 @@ func (e *event) line() map[string]any {
 
 type proc struct {
 	id      int
+	goid    int64
 	call    callT
 	variant int
 	gate    chan struct{}
@@ -480,7 +481,8 @@ func classify(err error) (class, etype string, untyped bool) {
 func (s *session) runCall(p *proc) {
 	defer close(p.done)
 	s.mu.Lock()
-	s.byGoid[goid()] = p
+	p.goid = goid()
+	s.byGoid[p.goid] = p
 	s.mu.Unlock()
 	if s.gated {
 		select {
@@ -747,6 +749,23 @@ func judge(s *session, r *resT) int {
 // ---------------------------------------------------------------------------- replay of a schedule
 
 const arrivalTimeout = 3 * time.Second
+const pollEvery = 20 * time.Millisecond
+
+// blockedOnMutex reports whether p's goroutine is waiting in sync.Mutex.Lock (goroutine dump).
+func (s *session) blockedOnMutex(p *proc) bool {
+	s.mu.Lock()
+	g := p.goid
+	s.mu.Unlock()
+	b := make([]byte, 1<<18)
+	n := runtime.Stack(b, true)
+	head := fmt.Sprintf("goroutine %d [", g)
+	for _, blk := range strings.Split(string(b[:n]), "\n\n") {
+		if strings.HasPrefix(blk, head) {
+			return strings.Contains(blk, "sync.(*Mutex).Lock") || strings.HasPrefix(blk, head+"sync.Mutex.Lock")
+		}
+	}
+	return false
+}
 
 func goroutineDump() string {
 	b := make([]byte, 1<<18)
@@ -823,6 +842,7 @@ loop:
 			p.gate <- struct{}{}
 		case "init", "invoke", "ret":
 			var ev *event
+			waited := time.Duration(0)
 			for ev == nil {
 				if q := pending[p.id]; len(q) > 0 {
 					ev, pending[p.id] = q[0], q[1:]
@@ -841,7 +861,17 @@ loop:
 							break loop
 						}
 					}
-				case <-time.After(arrivalTimeout):
+				case <-time.After(pollEvery):
+					waited += pollEvery
+					if c.Racy && s.blockedOnMutex(p) {
+						// structural, not timing: the goroutine sits in sync.Mutex.Lock behind another
+						// one that won a race the schedule cannot decide
+						followed, why, raced = false, fmt.Sprintf("step %d: goroutine %d lost a mutex race", i, p.id), true
+						break loop
+					}
+					if waited < arrivalTimeout {
+						continue
+					}
 					followed, why = false, fmt.Sprintf("step %d: %s(%d) did not happen", i, h.Ev, h.P)
 					stuck = true
 					r.Timeouts++
